@@ -13,5 +13,5 @@ def run(chk):
     plumbing.r05_plumb(chk, rule="R01-plumb")
     from . import c05, writertab
     c05.r05_adjacent(chk, rule="R01-adjacent")
-    writertab.compare(chk, "R01-writer", floor=54)
+    writertab.compare(chk, "R01-writer", floor=48)
     chk.assumptions += ["not decided: equality of the reloaded model and byte identity of the text for all inputs (runtime values)"]
